@@ -496,12 +496,31 @@ elif mode == 'release':
         except OSError:
             alive = False
     print('HELPER_ALIVE_AFTER_RELEASE', alive, flush=True)
+elif mode == 'remove-reget':
+    # somebody removes the lock file while the worker lives (jug cleanup --locks-only); the helper notices at its next refresh and ends; the worker
+    # takes the lock again through the same lock object: it must be kept alive again
+    os.unlink(lk.fullname)
+    t1 = time.time()
+    alive = True
+    while alive and time.time() - t1 < 25:
+        time.sleep(0.1)
+        try:
+            alive = os.path.exists('/proc/%%d' %% pid) and 'Z' not in open('/proc/%%d/stat' %% pid).read().split()[2]
+        except OSError:
+            alive = False
+    print('OLD_HELPER_ENDED', not alive, flush=True)
+    got = lk.get()
+    time.sleep(0.3)
+    mon = getattr(lk, 'monitor', None)
+    print('REGET', got, 'NEW_HELPER_ALIVE', bool(mon is not None and mon.poll() is None), flush=True)
+    if got:
+        lk.release()
 else:
     print('HELPERPID', pid, flush=True)
     os.kill(os.getpid(), 9)
 ''' % d
         env = dict(os.environ, PYTHONPATH=d + os.pathsep + core.REPO + os.pathsep + os.environ.get('PYTHONPATH', ''))
-        for mode in (['release', 'remove-release', 'remove-fail'] if quick else ['release', 'remove-release', 'remove-fail', 'die']):
+        for mode in (['release', 'remove-release', 'remove-fail', 'remove-reget'] if quick else ['release', 'remove-release', 'remove-fail', 'remove-reget', 'die']):
             p = subprocess.run([sys.executable, '-c', code, mode], stdout=subprocess.PIPE, stderr=subprocess.PIPE, text=True, env=env, timeout=300, cwd=d)
             out = p.stdout
             run.case(('real-helper', mode), nontrivial=True)
@@ -511,9 +530,12 @@ else:
                 run.fail('helper-does-not-refresh', 'real helper process started by the real lock (relative jug directory): lock not refreshed within 1.5 refresh periods: %s %s' % (out.strip(), p.stderr[-300:]), rp)
             if mode == 'release' and 'HELPER_ALIVE_AFTER_RELEASE False' not in out:
                 run.fail('helper-survives-release', 'the helper process is still alive after release(): %s' % out.strip(), rp)
-            if mode.startswith('remove-') and 'HELPER_ALIVE_AFTER_RELEASE False' not in out:
+            if mode in ('remove-release', 'remove-fail') and 'HELPER_ALIVE_AFTER_RELEASE False' not in out:
                 run.fail('helper-survives-release', 'the lock file was removed by somebody else, then the owner called %s(): the helper process is still alive afterwards (it would go on refreshing a lock '
                          'of the same name taken by another worker): %s %s' % (mode.split('-')[1], out.strip(), p.stderr[-300:]), rp)
+            if mode == 'remove-reget' and 'OLD_HELPER_ENDED True' in out and 'REGET True' in out and 'NEW_HELPER_ALIVE True' not in out:
+                run.fail('no-helper-after-reacquire', 'the lock file was removed by somebody else, the helper ended at its next refresh, and the worker took the lock again through the same lock object: get() returned True '
+                         'but no helper process is running - a live worker holds a lock nobody refreshes (reported failed after the expiry): %s' % out.strip(), rp)
             if mode == 'die':
                 import re
                 m = re.search(r'HELPERPID (\d+)', out)
